@@ -37,5 +37,5 @@ export VERIF_RACE_BIN="$WORK/verifctl-race"
 if [ "${1:-}" = "--replay" ]; then
   ./bin/verifctl replay "$2"; exit $?
 fi
-./bin/verifctl check C17 "${1:-quick}"
+./bin/verifctl check "${2:-C17}" "${1:-quick}"
 exit $?
